@@ -124,13 +124,13 @@ func resolveWho(who, n int) int {
 // teamserverCmd sends what the client sends for `task clear` / `task list`
 // (Session/Input, CommandID "Teamserver", Command "task::clear").
 func teamserverCmd(w *agx.World, s sess, line, command string, n int) {
-	w.Input("op", map[string]interface{}{"DemonID": s.NameID(), "CommandID": "Teamserver", "TaskID": fmt.Sprintf("%08x", 0x7e000000+n), "CommandLine": line, "Command": command})
+	w.Input(opUser(), map[string]interface{}{"DemonID": s.NameID(), "CommandID": "Teamserver", "TaskID": fmt.Sprintf("%08x", 0x7e000000+n), "CommandLine": line, "Command": command})
 }
 
 func markAs(w *agx.World, s sess, what string) {
 	pk := packager.Package{}
 	pk.Head.Event = packager.Type.Session.Type
-	pk.Head.User = "op"
+	pk.Head.User = opUser()
 	pk.Head.Time = "01/01/2026 00:00:00"
 	pk.Body.SubEvent = packager.Type.Session.MarkAsDead
 	pk.Body.Info = map[string]interface{}{"AgentID": s.NameID(), "Marked": what}
@@ -209,9 +209,9 @@ func downwardBetween(c Case, w *agx.World, chain []sess, side sess, tag string) 
 		e.n = counter
 		s := ns[idx].s
 		if e.cmd == 11 {
-			w.Input("op", map[string]interface{}{"DemonID": s.NameID(), "CommandID": "11", "TaskID": fmt.Sprintf("%08x", e.req), "CommandLine": "sleep", "Arguments": fmt.Sprintf("%d;%d", e.a, e.b)})
+			w.Input(opUser(), map[string]interface{}{"DemonID": s.NameID(), "CommandID": "11", "TaskID": fmt.Sprintf("%08x", e.req), "CommandLine": "sleep", "Arguments": fmt.Sprintf("%d;%d", e.a, e.b)})
 		} else {
-			w.Input("op", map[string]interface{}{"DemonID": s.NameID(), "CommandID": "15", "TaskID": fmt.Sprintf("%08x", e.req), "CommandLine": "cd", "SubCommand": "cd", "Arguments": e.path})
+			w.Input(opUser(), map[string]interface{}{"DemonID": s.NameID(), "CommandID": "15", "TaskID": fmt.Sprintf("%08x", e.req), "CommandLine": "cd", "SubCommand": "cd", "Arguments": e.path})
 		}
 		exp[idx] = append(exp[idx], e)
 		hist = append(hist, fmt.Sprintf("task#%d(%08x) for %s %08x", e.n, e.req, roleOf(idx, depth), s.ID))
